@@ -1,74 +1,39 @@
-(* _finalize_parse_info cannot raise
-   IndexError on a result whose instances all consumed input and whose spans lie
-   inside the text (C08's "no other exception escapes", for the shipped code,
-   on the domain where it is true; zero-width instances are D7). *)
+(* Facts about _finalize_parse_info (C08/C10): it is total (no IndexError for
+   any result, zero-width instances included), and an instance that consumed
+   input inside the text gets the line/column of its first and last offset. *)
 From Coq Require Import List Arith Bool Lia ZArith.
 Import ListNotations.
 Require Import ExcerptModel Model Spec Entry Within.
 
-Fixpoint positive (v : value) : Prop :=
-  match v with
-  | VList l | VTuple l | VNode _ l =>
-      (fix all (l : list value) : Prop := match l with [] => True | x :: l' => positive x /\ all l' end) l
-  | VObj _ fs (s, e) =>
-      s < e /\ (fix all (l : list value) : Prop := match l with [] => True | x :: l' => positive x /\ all l' end) fs
-  | _ => True
-  end.
-Fixpoint positive_all (l : list value) : Prop := match l with [] => True | x :: l' => positive x /\ positive_all l' end.
-
 Lemma lc_map_length : forall t l c, length (lc_map t l c) = length t.
 Proof. induction t as [|x t IH]; intros l c; cbn; auto. destruct (x =? NL); cbn; rewrite IH; auto. Qed.
 
-Lemma fin_pos_some t (i : nat) : i < length t -> exists fp, fin_pos t (Z.of_nat i) = Some fp.
+(* inside the text the finalised position carries the map's line and column *)
+Lemma fin_pos_inside t (i : nat) : i < length t ->
+  exists lc, fin_pos t (Z.of_nat i) = (Z.of_nat i, Some lc) /\ line_col t i = Some lc.
 Proof.
-  intros H. unfold fin_pos, py_index.
-  assert (E : (0 <=? Z.of_nat i)%Z = true) by (apply Z.leb_le; lia). rewrite E. rewrite Nat2Z.id.
-  destruct (nth_error (lc_map t 1 0) i) as [[l c]|] eqn:En; [eauto|].
+  intros H. unfold fin_pos, line_col.
+  replace ((0 <=? Z.of_nat i) && (Z.of_nat i <? Z.of_nat (length t)))%Z with true
+    by (symmetry; apply andb_true_iff; split; [apply Z.leb_le | apply Z.ltb_lt]; lia).
+  rewrite Nat2Z.id.
+  destruct (nth_error (lc_map t 1 0) i) as [lc|] eqn:En; [eauto|].
   apply nth_error_None in En. rewrite lc_map_length in En. lia.
 Qed.
-Lemma fin_pos_some_pred t (e : nat) : 1 <= e -> e <= length t -> exists fp, fin_pos t (Z.of_nat e - 1)%Z = Some fp.
+Lemma fin_pos_outside t (i : Z) : (i < 0 \/ Z.of_nat (length t) <= i)%Z -> fin_pos t i = (i, None).
 Proof.
-  intros H1 H2. replace (Z.of_nat e - 1)%Z with (Z.of_nat (e - 1)) by lia. apply fin_pos_some. lia.
+  intros H. unfold fin_pos.
+  replace ((0 <=? i) && (i <? Z.of_nat (length t)))%Z with false; auto.
+  symmetry. apply andb_false_iff. destruct H; [left; apply Z.leb_gt | right; apply Z.ltb_ge]; lia.
 Qed.
 
-Section FL.
-Variable t : list nat.
-Fixpoint fin_list (l : list value) : option (list fvalue) :=
-  match l with
-  | [] => Some []
-  | x :: l' => match finalize t x, fin_list l' with Some a, Some r => Some (a :: r) | _, _ => None end
-  end.
-End FL.
-
-Lemma finalize_total_aux t : forall n v lo hi, vsize v <= n -> hi <= length t ->
-  within lo hi v -> positive v -> exists fv, finalize t v = Some fv.
+(* the span of an instance that consumed input: start offset and LAST offset consumed *)
+Theorem finalize_span t c fs s e : s < e -> e <= length t ->
+  exists fs' a b, finalize t (VObj c fs (s, e)) = FObj c fs' ((Z.of_nat s, Some a), (Z.of_nat (e - 1), Some b))
+                  /\ line_col t s = Some a /\ line_col t (e - 1) = Some b.
 Proof.
-  induction n as [|n IH]; intros v lo hi Hn Hhi Hw Hp; [destruct v; cbn in Hn; lia|].
-  assert (HL : forall l lo hi, lsize l <= n -> hi <= length t -> within_all lo hi l -> positive_all l ->
-               exists fl, fin_list t l = Some fl).
-  { induction l as [|x l IHl]; intros lo0 hi0 Hl Hh Hwl Hpl; cbn in *; [eauto|].
-    destruct Hwl as (W1 & W2). destruct Hpl as (P1 & P2).
-    assert (vsize x >= 1) by (destruct x; cbn; lia).
-    destruct (IH x lo0 hi0 ltac:(lia) Hh W1 P1) as (a & Ha).
-    destruct (IHl lo0 hi0 ltac:(lia) Hh W2 P2) as (r & Hr). rewrite Ha, Hr. eauto. }
-  destruct v as [| | | |l|l|c fs [s e]|k l| | | | |]; cbn [finalize]; eauto.
-  - change (S (lsize l) <= S n) in Hn. destruct (HL l lo hi ltac:(lia) Hhi Hw Hp) as (fl & Hfl).
-    change (exists fv, option_map FList (fin_list t l) = Some fv). rewrite Hfl. cbn. eauto.
-  - change (S (lsize l) <= S n) in Hn. destruct (HL l lo hi ltac:(lia) Hhi Hw Hp) as (fl & Hfl).
-    change (exists fv, option_map FTup (fin_list t l) = Some fv). rewrite Hfl. cbn. eauto.
-  - change (S (lsize fs) <= S n) in Hn. rewrite within_obj in Hw. destruct Hw as (A & B & C & D).
-    destruct Hp as (P1 & P2).
-    destruct (HL fs s e ltac:(lia) ltac:(lia) D P2) as (fl & Hfl).
-    destruct (fin_pos_some t s ltac:(lia)) as (fa & Hfa).
-    destruct (fin_pos_some_pred t e ltac:(lia) ltac:(lia)) as (fb & Hfb).
-    change (exists fv, match fin_pos t (Z.of_nat s), fin_pos t (Z.of_nat e - 1)%Z, fin_list t fs with
-                       | Some a, Some b, Some fs' => Some (FObj c fs' (a, b)) | _, _, _ => None end = Some fv).
-    rewrite Hfa, Hfb, Hfl. eauto.
-  - change (S (lsize l) <= S n) in Hn. destruct (HL l lo hi ltac:(lia) Hhi Hw Hp) as (fl & Hfl).
-    change (exists fv, option_map (FNode k) (fin_list t l) = Some fv). rewrite Hfl. cbn. eauto.
+  intros H1 H2. cbn [finalize].
+  destruct (fin_pos_inside t s ltac:(lia)) as (a & Ea & La).
+  destruct (fin_pos_inside t (e - 1) ltac:(lia)) as (b & Eb & Lb).
+  replace (Z.of_nat e - 1)%Z with (Z.of_nat (e - 1)) by lia.
+  rewrite Ea, Eb. eauto 8.
 Qed.
-
-Theorem finalize_total t v lo hi : hi <= length t -> within lo hi v -> positive v ->
-  exists fv, finalize t v = Some fv.
-Proof. apply (finalize_total_aux t (vsize v)). lia. Qed.
-Print Assumptions finalize_total.
